@@ -217,7 +217,7 @@ pub fn run(ctx: &Ctx) -> (Stats, Spec) {
         st.merge(crate::report::merge_all(parts));
     }
     st.exhaustive.push("all formula trees with <= 2 operator nodes over the names a, b (every node kind; lists <= 2 elements, constants <= 2)".into());
-    let (iters, max_names, depth) = ctx.tier.pick((15_000u64, 6usize, 5u32), (1_500_000u64, 8usize, 6u32));
+    let (iters, max_names, depth) = ctx.tier.pick((40_000u64, 6usize, 5u32), (1_500_000u64, 8usize, 6u32));
     let parts = util::par_jobs(16, |job| random_job(ctx, job, iters, max_names, depth));
     st.merge(crate::report::merge_all(parts));
     examples(ctx, &mut st);
